@@ -92,6 +92,16 @@ func w2Gen(r *rand.Rand, prop, tier string) *simrt.Case {
 		if r.IntN(3) == 0 {
 			c.Faults = append(c.Faults, simrt.Fault{Kind: "store.slow", Op: "store.CommitConsumerOffset", Nth: r.IntN(4), Arg: int64(20+r.IntN(2000)) * 1e6})
 		}
+		if r.IntN(4) == 0 {
+			// the coordinator is replaced while the group exists (possibly in the middle of a join round); the new
+			// one may fail to read the group from the store at its first attempt
+			for i := 0; i < 1+r.IntN(2); i++ {
+				c.Program = append(c.Program, simrt.Op{Actor: 201, Kind: "sleep", A: int64(1 + r.IntN(600))}, simrt.Op{Actor: 201, Kind: "failover", B: int64(r.IntN(2))})
+			}
+			if r.IntN(2) == 0 {
+				c.Faults = append(c.Faults, simrt.Fault{Kind: pk(r, "store.err", "store.timeout"), Op: "store.FetchConsumerGroup", Nth: r.IntN(5), Count: 1 + r.IntN(3)})
+			}
+		}
 	case "C43":
 		g := int64(r.IntN(2))
 		for m := 0; m < nm; m++ {
@@ -150,6 +160,10 @@ func w2Gen(r *rand.Rand, prop, tier string) *simrt.Case {
 			// a group write fails once: the request that needed it is answered with an error, the client
 			// retries, and the retry must leave the store as the coordinator has it
 			c.Faults = append(c.Faults, simrt.Fault{Kind: "store.err", Op: "store.PutConsumerGroup", Nth: r.IntN(8)})
+		} else if r.IntN(2) == 0 {
+			// a read of the group fails once (typically the new coordinator's first): the request is answered
+			// with an error and retried; the stored group must not be replaced by a fresh one
+			c.Faults = append(c.Faults, simrt.Fault{Kind: pk(r, "store.err", "store.timeout"), Op: "store.FetchConsumerGroup", Nth: r.IntN(5), Count: 1 + r.IntN(3)})
 		}
 	default: // C12, C14
 		g := int64(r.IntN(2))
@@ -186,6 +200,8 @@ func w2Gen(r *rand.Rand, prop, tier string) *simrt.Case {
 		}
 		if r.IntN(4) == 0 {
 			c.Faults = append(c.Faults, simrt.Fault{Kind: "store.err", Op: "store.PutConsumerGroup", Nth: r.IntN(10)})
+		} else if r.IntN(4) == 0 {
+			c.Faults = append(c.Faults, simrt.Fault{Kind: pk(r, "store.err", "store.timeout"), Op: "store.FetchConsumerGroup", Nth: r.IntN(5), Count: 1 + r.IntN(3)})
 		}
 	}
 	return c
